@@ -1,11 +1,27 @@
 (** C16 — Rolling appender: a write lands in its period's file; only the oldest are pruned.
     Statements only; proofs live in Appender/Rolling*Proofs.v.  Model: Appender/RollingModel.v
     (tied to tracing-appender/src/rolling.rs by translators/rolling.py + Appender/RollingTie.v and by
-    the correspondence run of driver/props/c16.py). *)
-From Coq Require Import ZArith List String.
-From TV Require Import Appender.RollingModel Appender.RollingTie Appender.RollingTimeProofs.
+    the correspondence run of driver/props/c16.py).
+
+    Reading guide.  [run_x c s0 ws] is the exclusive interface (io::Write::write on &mut self) fed the list
+    [ws] of (clock reading, buffer); [run c s0 evs] is the shared interface (MakeWriter::make_writer from any
+    number of threads) under the schedule [evs] of micro-steps — quantifying over [evs] is quantifying over
+    every interleaving and every thread count.  [s0 = init c pre tick0 t0]: the appender built at clock [t0]
+    in a directory already holding [pre].  Clock readings are unix seconds with 0 <= t < 2^62 ([TBOUND]; the
+    code casts to usize).  [stored_in s n]: every buffer appended to the files called [n], in append order
+    (pruned incarnations first).  [period_file c t0 t]: the name [join_date] gives the period containing [t]
+    (the single file made at construction for Rotation::NEVER).  Flags of a landing [l]: [l_nd l] — its clock
+    reading is not behind an earlier one; [l_clean l] — no other thread was between winning the
+    compare_exchange and finishing refresh_writer at any moment of the call (it "overlaps no rotation"). *)
+From Coq Require Import ZArith NArith List String Bool Sorted.
+From TVGen Require Import Gen_rolling.
+From TV Require Import Appender.RollingModel Appender.RollingTie Appender.RollingTimeProofs Appender.RollingNameProofs.
+From TV Require Import Appender.RollingDirProofs Appender.RollingFsProofs Appender.RollingConcProofs Appender.RollingSeqProofs.
+From TV Require Import Appender.RollingMainProofs Appender.RollingExamples.
 Import ListNotations.
 Local Open Scope Z_scope.
+
+(** * Periods and names *)
 
 (** Every instant lies in exactly one period [round, round + P), periods start at multiples of P
     (minute / hour / day in UTC), and next_date is the start of the following period. *)
@@ -15,3 +31,197 @@ Theorem C16_period : forall k t, k <> Never ->
   next_date k t = Some (round_date k t + dur k).
 Proof. exact period_spec. Qed.
 Print Assumptions C16_period.
+
+(** A file name is constant inside a period ... *)
+Theorem C16_name_constant_in_period : forall c t t', rot c <> Never ->
+  round_date (rot c) t = round_date (rot c) t' -> join_date c t = join_date c t'.
+Proof. exact name_same_period. Qed.
+Print Assumptions C16_name_constant_in_period.
+
+(** ... and injective on periods, for every prefix/suffix combination (up to 9999-12-31T23:59:59Z, where
+    [year] has four digits; month/year ends and leap days are inside the quantifier) *)
+Theorem C16_name_injective_on_periods : forall c t t', rot c <> Never -> 0 <= t < TCAL -> 0 <= t' < TCAL ->
+  join_date c t = join_date c t' -> round_date (rot c) t = round_date (rot c) t'.
+Proof. exact name_injective. Qed.
+Print Assumptions C16_name_injective_on_periods.
+
+(** * Exclusive interface *)
+
+(** HEADLINE.  Non-decreasing clock readings: the files called [n] hold exactly the buffers whose write
+    time lies in the period [n] is named for — each once, whole, in write order.
+    Non-vacuity: RollingExamples.contents_example, leap_day_example. *)
+Theorem C16_lands_in_period : forall c pre tick0 t0, 0 <= t0 < TBOUND -> PreOK pre tick0 ->
+  forall ws, Forall valid_w ws -> StronglySorted Z.le (t0 :: map fst ws) ->
+  forall n, stored_in (run_x c (init c pre tick0 t0) ws) n = belongs c t0 n ws.
+Proof. exact x_contents_by_period. Qed.
+Print Assumptions C16_lands_in_period.
+
+(** Any clock readings (backward steps included): the landings are the writes, in order, each flagged with
+    "not behind an earlier reading"; every buffer is stored exactly once, whole, in order per file; the
+    flagged ones are in their period's file; the current file exists.
+    Non-vacuity: RollingExamples.any_clock_example. *)
+Theorem C16_lands_in_period_any_clock : forall c pre tick0 t0, 0 <= t0 < TBOUND -> PreOK pre tick0 ->
+  forall ws, Forall valid_w ws ->
+  map (fun l => (l_t l, l_buf l, l_nd l)) (rev (lands (run_x c (init c pre tick0 t0) ws))) = annotate t0 ws /\
+  (forall n, stored_in (run_x c (init c pre tick0 t0) ws) n = landed_in n (lands (run_x c (init c pre tick0 t0) ws))) /\
+  (forall l, In l (lands (run_x c (init c pre tick0 t0) ws)) -> l_nd l = true -> l_file l = period_file c t0 (l_t l)) /\
+  in_dir (cur (run_x c (init c pre tick0 t0) ws)) (dir (run_x c (init c pre tick0 t0) ws)) = true.
+Proof. exact x_contents_any_clock. Qed.
+Print Assumptions C16_lands_in_period_any_clock.
+
+(** A reading at or past next_date rotates once: the write goes to its own period's file and next_date
+    moves past the reading.  Non-vacuity: RollingExamples.backwards_example (first write). *)
+Theorem C16_rotation_at_boundary_exclusive : forall c pre tick0 t0, 0 <= t0 < TBOUND -> PreOK pre tick0 ->
+  forall ws t b, Forall valid_w ws -> 0 <= t < TBOUND ->
+  next (run_x c (init c pre tick0 t0) ws) <> 0 -> next (run_x c (init c pre tick0 t0) ws) <= t ->
+  cur (write_x c (run_x c (init c pre tick0 t0) ws) t b) = join_date c t /\
+  next (write_x c (run_x c (init c pre tick0 t0) ws) t b) = next_usize (rot c) t /\
+  t < next (write_x c (run_x c (init c pre tick0 t0) ws) t b) /\
+  refreshed (write_x c (run_x c (init c pre tick0 t0) ws) t b) = true.
+Proof. exact x_rotation_at_boundary. Qed.
+Print Assumptions C16_rotation_at_boundary_exclusive.
+
+(** Time standing still or stepping back (by any amount, behind ANY earlier reading: [maxstart] is their
+    maximum, next theorem) never rotates: no rollover, same file, same next_date, same directory names.
+    Non-vacuity: RollingExamples.backwards_example. *)
+Theorem C16_no_rotation_backwards : forall c pre tick0 t0, 0 <= t0 < TBOUND -> PreOK pre tick0 ->
+  forall ws t b, Forall valid_w ws -> 0 <= t < TBOUND ->
+  t <= maxstart (run_x c (init c pre tick0 t0) ws) ->
+  should_rollover (run_x c (init c pre tick0 t0) ws) t = None /\
+  cur (write_x c (run_x c (init c pre tick0 t0) ws) t b) = cur (run_x c (init c pre tick0 t0) ws) /\
+  next (write_x c (run_x c (init c pre tick0 t0) ws) t b) = next (run_x c (init c pre tick0 t0) ws) /\
+  map fname (dir (write_x c (run_x c (init c pre tick0 t0) ws) t b)) = map fname (dir (run_x c (init c pre tick0 t0) ws)).
+Proof. exact x_no_rotation_backwards. Qed.
+Print Assumptions C16_no_rotation_backwards.
+
+Theorem C16_maxstart_is_the_latest_reading : forall c pre tick0 t0, 0 <= t0 < TBOUND ->
+  forall ws, Forall valid_w ws -> forall u, In u (t0 :: map fst ws) -> u <= maxstart (run_x c (init c pre tick0 t0) ws).
+Proof. exact x_maxstart_is_max. Qed.
+Print Assumptions C16_maxstart_is_the_latest_reading.
+
+(** * Shared interface: every schedule, any number of threads *)
+
+(** HEADLINE for the code as it is now (make_writer re-checks next_date under the write lock —
+    [C16_source_parameters] below ties [recheck] to the source): on EVERY schedule a call that overlaps no
+    other thread's rotation and whose reading is not behind an earlier one lands in its period's file.
+    No hypothesis about how rotations interleave.  Non-vacuity: RollingExamples.overlap_with_recheck. *)
+Theorem C16_lands_in_period_shared : forall c pre tick0 t0, 0 <= t0 < TBOUND -> recheck c = true ->
+  forall evs, Forall valid_ev evs ->
+  forall l, In l (lands (run c (init c pre tick0 t0) evs)) -> l_clean l = true -> l_nd l = true ->
+    l_file l = period_file c t0 (l_t l).
+Proof. exact shared_lands_in_period_recheck. Qed.
+Print Assumptions C16_lands_in_period_shared.
+
+(** The code before the repair of finding F16 (no re-check): the same conclusion only for schedules in which
+    no compare_exchange is won while another winner has not refreshed yet ...
+    Non-vacuity: RollingExamples.no_overlap_without_recheck. *)
+Theorem C16_lands_in_period_shared_without_recheck : forall c pre tick0 t0, 0 <= t0 < TBOUND ->
+  forall evs, Forall valid_ev evs -> overlapped (run c (init c pre tick0 t0) evs) = false ->
+  forall l, In l (lands (run c (init c pre tick0 t0) evs)) -> l_clean l = true -> l_nd l = true ->
+    l_file l = period_file c t0 (l_t l).
+Proof. exact shared_lands_in_period_norecheck. Qed.
+Print Assumptions C16_lands_in_period_shared_without_recheck.
+
+(** ... and that hypothesis cannot be dropped there: F16's schedule (the winner of boundary b1 parked between
+    advance_date and refresh_writer, a later boundary's winner rotates, b1's refresh runs last) sends a later,
+    overlap-free write to the OLDER period's file.  This is why the re-check is load-bearing. *)
+Theorem C16_overlap_refuted_without_recheck :
+  exists c pre tick0 t0 evs,
+    recheck c = false /\ 0 <= t0 < TBOUND /\ PreOK pre tick0 /\ Forall valid_ev evs /\
+    exists l, In l (lands (run c (init c pre tick0 t0) evs)) /\ l_clean l = true /\ l_nd l = true /\
+              l_file l <> period_file c t0 (l_t l).
+Proof. exact overlap_refuted. Qed.
+Print Assumptions C16_overlap_refuted_without_recheck.
+
+(** Never lost — every schedule, with or without the re-check (so also the calls that DO overlap a rotation):
+    every buffer appended is stored exactly once, whole, in landing order per file name; per thread, the calls
+    it completed followed by the one it is inside are exactly the calls it started; the file behind the lock
+    exists; and (overlap clause) a landing is always in a file the appender itself opened — the one made at
+    construction or the one of an elected rotation; the directory stays well-formed.
+    Non-vacuity: RollingExamples.every_call_lands_once_example. *)
+Theorem C16_never_lost : forall c pre tick0 t0, 0 <= t0 < TBOUND -> PreOK pre tick0 ->
+  forall evs, Forall valid_ev evs ->
+  (forall n, stored_in (run c (init c pre tick0 t0) evs) n = landed_in n (lands (run c (init c pre tick0 t0) evs))) /\
+  (forall i, done_by (run c (init c pre tick0 t0) evs) i ++ inflight (run c (init c pre tick0 t0) evs) i =
+             accepted c (init c pre tick0 t0) evs i) /\
+  in_dir (cur (run c (init c pre tick0 t0) evs)) (dir (run c (init c pre tick0 t0) evs)) = true /\
+  (forall l, In l (lands (run c (init c pre tick0 t0) evs)) ->
+             opened c t0 (rots (run c (init c pre tick0 t0) evs)) (l_file l)) /\
+  DirOK (dir (run c (init c pre tick0 t0) evs)) (tick (run c (init c pre tick0 t0) evs)).
+Proof. exact shared_never_lost_full. Qed.
+Print Assumptions C16_never_lost.
+
+(** A boundary (the value of next_date that a reading reached) is rotated exactly once however many threads
+    reach it: at most one compare_exchange succeeds per boundary value; a failed one has a winner on the same
+    value; a rotation's reading had reached its boundary and next_date is past it; and a thread that saw the
+    boundary reached and attempts the compare_exchange leaves it rotated (by itself or the earlier winner).
+    Non-vacuity: RollingExamples.same_boundary_race, cas_elects_example. *)
+Theorem C16_one_rotation_per_boundary : forall c pre tick0 t0, 0 <= t0 < TBOUND ->
+  forall evs, Forall valid_ev evs ->
+  NoDup (map from_of (rots (run c (init c pre tick0 t0) evs))) /\
+  (forall i n t, In (i, n, t) (fails (run c (init c pre tick0 t0) evs)) ->
+     exists j u, In (j, n, u) (rots (run c (init c pre tick0 t0) evs))) /\
+  (forall r, In r (rots (run c (init c pre tick0 t0) evs)) ->
+     from_of r <= snd r /\ from_of r < next (run c (init c pre tick0 t0) evs)) /\
+  (forall i t b n g, pcs (run c (init c pre tick0 t0) evs) i = Some (PCas t b n g) ->
+     exists j u, In (j, n, u) (rots (step c (run c (init c pre tick0 t0) evs) (Step i)))).
+Proof. exact shared_one_rotation_full. Qed.
+Print Assumptions C16_one_rotation_per_boundary.
+
+(** Standing still / stepping back on the shared interface: NEVER never rotates; every reading already acted
+    upon is below next_date; and a thread whose reading is not ahead of such a reading goes straight to the
+    read lock — no compare_exchange, no rotation, nothing created or removed.
+    Non-vacuity: RollingExamples.backwards_step_example. *)
+Theorem C16_no_rotation_backwards_shared : forall c pre tick0 t0, 0 <= t0 < TBOUND ->
+  forall evs, Forall valid_ev evs ->
+  (rot c = Never -> rots (run c (init c pre tick0 t0) evs) = []) /\
+  (rot c <> Never -> forall u, In u (decided (run c (init c pre tick0 t0) evs)) -> u < next (run c (init c pre tick0 t0) evs)) /\
+  (forall i t b g u, pcs (run c (init c pre tick0 t0) evs) i = Some (PLoad t b g) ->
+     (rot c = Never \/ (In u (decided (run c (init c pre tick0 t0) evs)) /\ t <= u)) ->
+     rots (step c (run c (init c pre tick0 t0) evs) (Step i)) = rots (run c (init c pre tick0 t0) evs) /\
+     fails (step c (run c (init c pre tick0 t0) evs) (Step i)) = fails (run c (init c pre tick0 t0) evs) /\
+     next (step c (run c (init c pre tick0 t0) evs) (Step i)) = next (run c (init c pre tick0 t0) evs) /\
+     cur (step c (run c (init c pre tick0 t0) evs) (Step i)) = cur (run c (init c pre tick0 t0) evs) /\
+     dir (step c (run c (init c pre tick0 t0) evs) (Step i)) = dir (run c (init c pre tick0 t0) evs) /\
+     pcs (step c (run c (init c pre tick0 t0) evs) (Step i)) i = Some (PRead t b g)).
+Proof. exact shared_no_rotation_backwards_full. Qed.
+Print Assumptions C16_no_rotation_backwards_shared.
+
+(** * Pruning (max_log_files = m >= 1; multi-period jumps and m = 1 are inside the quantifier) *)
+
+(** From the first rotation on, at most [m] of the appender's log files — both interfaces, every history /
+    schedule.  Non-vacuity: RollingExamples.prune_example, prune_max1_example. *)
+Theorem C16_prune : forall c pre tick0 t0, 0 <= t0 < TBOUND -> PreOK pre tick0 ->
+  forall m, max_files c = Some m -> (1 <= m)%nat ->
+  (forall ws, Forall valid_w ws -> refreshed (run_x c (init c pre tick0 t0) ws) = true ->
+     (count_logs c (dir (run_x c (init c pre tick0 t0) ws)) <= m)%nat) /\
+  (forall evs, Forall valid_ev evs -> refreshed (run c (init c pre tick0 t0) evs) = true ->
+     (count_logs c (dir (run c (init c pre tick0 t0) evs)) <= m)%nat).
+Proof. exact prune_limit_both. Qed.
+Print Assumptions C16_prune.
+
+(** What a rotation ([refresh] = prune, create, swap) removes from a well-formed directory: only the
+    appender's own log files, and each of them is older (creation stamp) than every one of its log files that
+    was there and stays ... *)
+Theorem C16_prune_oldest_first : forall c s t m, max_files c = Some m -> DirOK (dir s) (tick s) ->
+  forall r, In r (dir s) -> ~ In r (dir (refresh c s t)) ->
+    matches c (fname r) = true /\
+    forall f, In f (dir s) -> In f (dir (refresh c s t)) -> matches c (fname f) = true -> (created r < created f)%N.
+Proof. exact refresh_removes_oldest. Qed.
+Print Assumptions C16_prune_oldest_first.
+
+(** ... and the directory is well-formed in every state a rotation can start from (both interfaces). *)
+Theorem C16_directory_wellformed : forall c pre tick0 t0, 0 <= t0 < TBOUND -> PreOK pre tick0 ->
+  (forall ws, Forall valid_w ws ->
+     DirOK (dir (run_x c (init c pre tick0 t0) ws)) (tick (run_x c (init c pre tick0 t0) ws))) /\
+  (forall evs, Forall valid_ev evs ->
+     DirOK (dir (run c (init c pre tick0 t0) evs)) (tick (run c (init c pre tick0 t0) evs))).
+Proof. exact dir_ok_both. Qed.
+Print Assumptions C16_directory_wellformed.
+
+(** * The model's switches are the source's (regenerated from rolling.rs on every run) *)
+Theorem C16_source_parameters :
+  gen_unrecognised = [] /\ gen_recheck = true /\ gen_rollover_cmp = ">="%string /\
+  gen_advance = "compare_exchange"%string /\ gen_prune_guard = "<"%string /\ gen_prune_keep = 1.
+Proof. exact (conj tie_recognised (conj tie_recheck (conj (proj1 tie_control) (conj (proj1 (proj2 (proj2 tie_control))) (conj (proj1 (proj2 (proj2 (proj2 tie_control)))) (proj1 (proj2 (proj2 (proj2 (proj2 tie_control)))))))))). Qed.
+Print Assumptions C16_source_parameters.
